@@ -930,16 +930,18 @@ class TrajectoryStore:
             return self._trajectories[idx]
 
         # Otherwise, if the store is linked to external NetCDF files, attempt
-        # to load the requested trajectory into the cache.
+        # to load the requested trajectory (normally into the cache).
+        traj = None
         if self.nc_linked:
-            self._load_trajectory(idx)
+            traj = self._load_trajectory(idx)
 
         # Load failed or the index is unknown.
-        if idx not in self._trajectories:
+        if traj is None:
             raise IndexError('Trajectory index out of range')
 
-        # Return the trajectory from the cache.
-        return self._trajectories[idx]
+        # Return the loaded trajectory. (It is not in the cache if it is larger
+        # than the whole cache.)
+        return traj
 
     def __iter__(self) -> Iterator[Trajectory]:
         """Iterator over trajectories in store in index order."""
@@ -1610,8 +1612,10 @@ class TrajectoryStore:
         index_group.variables['trajectory_index'][:] = [idx for idx, _ in id_pairs]
         index_dataset.close()
 
-    def _load_trajectory(self, index: int) -> None:
-        """Load a trajectory at the given index from the NetCDF file(s)."""
+    def _load_trajectory(self, index: int) -> Trajectory | None:
+        """Load a trajectory at the given index from the NetCDF file(s).
+
+        Returns the trajectory, or None if the index is beyond the end."""
         data = {}
         npoints: int | None = None
 
@@ -1631,7 +1635,7 @@ class TrajectoryStore:
             if nc_files.size_index is not None:
                 file_index = bisect.bisect_left(nc_files.size_index, index + 1)
                 if file_index >= len(nc_files.size_index):
-                    return
+                    return None
                 group_index = index - nc_files.size_index[file_index]
             group = nc_files.groups[fs_name][file_index]
 
@@ -1672,8 +1676,12 @@ class TrajectoryStore:
         for k, v in data.items():
             setattr(traj, k, v)
 
-        # Save the trajectory we've just loaded into the cache.
-        self._trajectories[index] = traj
+        # Save the trajectory we've just loaded into the cache, unless it is
+        # larger than the whole cache: it is still returned to the caller, a
+        # small cache must not make a stored trajectory unreadable.
+        if traj.nbytes <= self._trajectories.maxsize:
+            self._trajectories[index] = traj
+        return traj
 
     def _write_trajectory(self, index: int) -> None:
         """Write a trajectory at the given index to the NetCDF file(s)."""
